@@ -133,7 +133,10 @@ class Driver:
         if fault is not None and fault.fired is not None and fault.sid is None:
             # the fault hit the build's own machinery (cache directory / cache backup / cache write): the whole
             # build fails, the reference tree stays as it was before the build
-            r = ('exc', OSError(5, 'injected fault in the root build'), None)
+            if getattr(fault, 'exc', 'OSError') == 'ValueError' and fault.fired[0] == 'gzip-data':
+                r = ('exc', ValueError('injected serialisation failure in the root build'), None)
+            else:
+                r = ('exc', OSError(5, 'injected fault in the root build'), None)
         else:
             r = ref_build(w.ref, w.cache, self.state, lambda b: run_body(b, prog.body, sr))
         ref = (r[0], r[1])
